@@ -65,6 +65,9 @@ def run_driver(chk, bindir, mode, vecs, tag):
         if p.returncode == 0:
             break
         if p.returncode == 42 and last is not None:
+            if mode == "findbuf":   # one operation per vector: resume behind it
+                skip = last + 1
+                continue
             # resume at the crashing vector, leaving out the operations that faulted on it
             skipops = (skipops if last == skip else []) + [crashes[-1]["op"]]
             skip = last
